@@ -395,6 +395,48 @@ pub async fn witness_178(delta: i64) -> TraceResult {
     TraceResult { hash: w.trace_hash(), nontrivial: true, steps: w.step_no as u64, findings: std::mem::take(&mut w.findings), stats: std::mem::take(&mut w.stats), replay }
 }
 
+/// Same boundary shape with a state larger than one datagram: a replay from version 0 would be cut before
+/// it reaches anything new, so a sender that wrongly decides "reset" for a receiver sitting exactly on its
+/// watermark livelocks (the receiver correctly treats the delta as incremental and rejects it as stale).
+pub async fn witness_178_big(delta: i64) -> TraceResult {
+    let mut cfg = witness_cfg(3);
+    cfg.big_values = true;
+    let mut w = World::new(cfg, 0x178B1u64.wrapping_add(delta as u64));
+    for s in 0..3 {
+        w.start(s);
+    }
+    let x = 0usize;
+    let r = 1usize;
+    let mut brng = rng_from(0xB16);
+    let big: Vec<String> = (0..3).map(|i| hi_entropy(&mut brng, 30_000 + i)).collect();
+    // versions 1..7; version 5 is the tombstone the owner will collect
+    let script: Vec<(u8, &str, String)> = vec![(0, "a", "1".into()), (0, "b", big[0].clone()), (0, "k", big[1].clone()), (0, "ab", big[2].clone()), (2, "a", String::new()), (0, "é", "6".into()), (0, "é", "7".into())];
+    let stop = (5 + delta) as u64;
+    for (i, (op, k, v)) in script.iter().enumerate() {
+        w.write(x, *op, k, v);
+        if (i as u64 + 1) == stop {
+            // the receiver gets the tombstone later than the owner wrote it, so it will collect it later
+            w.advance(Duration::from_secs(10)).await;
+            // the state does not fit one datagram: several handshakes until the receiver holds everything so far
+            for _ in 0..8 {
+                let have = w.slots[r].snap.copies.get(&w.slots[x].member).map(|c| c.mv).unwrap_or(0);
+                if have >= stop {
+                    break;
+                }
+                w.handshake(r, x);
+            }
+        }
+    }
+    let have = w.slots[r].snap.copies.get(&w.slots[x].member).map(|c| c.mv).unwrap_or(0);
+    w.note(format!("receiver synced up to {have} (wanted {stop})"));
+    w.advance(Duration::from_secs(21)).await;
+    w.gc(x); // owner watermark 5 (its tombstone is 31 s old, the receiver's copy of it only 21 s)
+    w.write(x, 0, "é", "8"); // 8
+    fair_phase(&mut w, true).await;
+    let replay = w.replay_doc("E1-witness-178-big", delta as u64);
+    TraceResult { hash: w.trace_hash(), nontrivial: true, steps: w.step_no as u64, findings: std::mem::take(&mut w.findings), stats: std::mem::take(&mut w.stats), replay }
+}
+
 /// Everything collected by the owner: the only thing left to send is the max version.
 pub async fn witness_empty_tail() -> TraceResult {
     let mut w = World::new(witness_cfg(3), 0xE7);
@@ -570,9 +612,20 @@ pub fn check(args: &Args) -> Outcome {
             wit.push(("issue178", rt.block_on(witness_178(d))));
         }
         wit.push(("empty_tail", rt.block_on(witness_empty_tail())));
+        for d in [-1i64, 0, 1] {
+            wit.push(("issue178_big_state", rt.block_on(witness_178_big(d))));
+        }
     }
     let mut kf1_witness_reproduced = false;
     for (name, tr) in wit {
+        if args.has("--witnesses") {
+            println!("=== witness {name}: {} findings", tr.findings.len());
+            if let Some(a) = tr.replay["last_steps"].as_array() {
+                for l in a {
+                    println!("   {}", l.as_str().unwrap_or(""));
+                }
+            }
+        }
         ev.evaluations += 1;
         ev.distinct.insert(tr.hash);
         ev.counters.merge(&tr.stats);
